@@ -294,6 +294,38 @@ example : (doneOf 1 (runProgram cancelSt cancelInsA).outs).length = 1 ∧
     (doneOf 3 (runProgram cancelSt cancelInsA).outs).length = 1 ∧
     (batchesOf (runProgram cancelSt cancelInsA).outs).length = 2 := by decide +kernel
 
+/-- **C11, "further calls with that key do not add work to any batch", run level.**  Insert, anywhere in any
+program, a call by caller `c` whose key is remembered at that moment (its request is pending, or completed
+less than `retention_timeout` ago — i.e. the key is in the retention table when the call arrives): compared
+with the program in which `c` does nothing at that instant, the batch function is invoked with exactly the
+same batches at the same instants, and every other caller is answered at the same instants with the same
+outcomes; queue, futures, retention table and running batches are identical. -/
+theorem C11_sharer_adds_no_work (s0 : St) (a b : List In) (t c arg key : Nat)
+    (hhit : ((arrive (a.foldl applyIn s0) t).retention.find? (·.1 == key)).isSome = true) :
+    let with_ := runProgram s0 (a ++ [In.call t c arg key] ++ b)
+    let without := runProgram s0 (a ++ [In.cancel t c] ++ b)
+    batchesOf with_.outs = batchesOf without.outs ∧
+    (∀ c', c' ≠ c → doneOf c' with_.outs = doneOf c' without.outs) ∧
+    with_.futs = without.futs ∧ with_.retention = without.retention ∧ with_.queue = without.queue ∧
+    with_.running = without.running := by
+  intro with_ without
+  have hs := strip_sharer (fun x => x == c) s0 a b t c arg key (by simp) hhit
+  have ho : with_.outs.filter (keepOut fun x => x == c) = without.outs.filter (keepOut fun x => x == c) :=
+    congrArg St.outs hs
+  have h1 : (strip (fun x => x == c) with_).futs = (strip (fun x => x == c) without).futs := congrArg St.futs hs
+  have h2 : (strip (fun x => x == c) with_).retention = (strip (fun x => x == c) without).retention := congrArg St.retention hs
+  have h3 : (strip (fun x => x == c) with_).queue = (strip (fun x => x == c) without).queue := congrArg St.queue hs
+  have h4 : (strip (fun x => x == c) with_).running = (strip (fun x => x == c) without).running := congrArg St.running hs
+  refine ⟨?_, ?_, h1, h2, h3, h4⟩
+  · rw [← batchesOf_filter (fun x => x == c) with_.outs, ← batchesOf_filter (fun x => x == c) without.outs, ho]
+  · intro c' hc'
+    have hx : (fun x => x == c) c' = false := by simpa using hc'
+    rw [← doneOf_filter (fun x => x == c) c' hx with_.outs, ← doneOf_filter (fun x => x == c) c' hx without.outs, ho]
+
+/-- non-vacuity: in the cancel demo, caller 1's call at t = 1 finds key 7 remembered (caller 0 asked at t = 0) -/
+example : ((arrive (([In.call 0 0 0 7] : List In).foldl applyIn cancelSt) 1).retention.find? (·.1 == 7)).isSome = true := by
+  decide +kernel
+
 /-- non-vacuity of the at-rest theorem: the cancel demo drains completely, and mid-run somebody does wait -/
 example : Fresh3 cancelSt := by simp [Fresh3, Fresh2, Fresh, cancelSt]
 example : (runProgram cancelSt cancelInsA).queue = [] ∧ (runProgram cancelSt cancelInsA).asm = none ∧
